@@ -39,6 +39,9 @@ def gen_prim(rng: random.Random, allow_bool: bool = True) -> list:
 
 
 def gen_doc(rng: random.Random) -> str:
+    if rng.random() < 0.06:
+        # a long comment (more than 160 / 255 characters on one line, or many lines)
+        return " ".join(rng.choice(DOC_WORDS) for _ in range(rng.randint(40, 70))) if rng.random() < 0.6 else "\n".join("line %d of a long block %s" % (i, rng.choice(DOC_WORDS)) for i in range(rng.randint(12, 30)))
     n = 1 if rng.random() < 0.7 else rng.randint(2, 3)
     return "\n".join(" ".join(rng.choice(DOC_WORDS) for _ in range(rng.randint(1, 3))) for _ in range(n))
 
